@@ -1227,7 +1227,10 @@ def _run_instrumented(case):
     orig_get_value = E.Expression.get_value
 
     def rec_getattr(obj, name, *default):
-        log["reads"].append([canon(obj), name, True])
+        # getattr calls of the evaluator itself (get_member); the step-by-step traversal of a replacement field inside
+        # _SafeFormatter.get_field (since /repo dfac3bc) is the formatter's, which the model logs on the host side
+        if sys._getframe(1).f_code.co_name != "get_field":
+            log["reads"].append([canon(obj), name, True])
         return getattr(obj, name, *default)
 
     def wrapped_get_member(obj, member):
